@@ -137,13 +137,14 @@ fn gen_document(r: &mut Rng, d: &DocKind) -> GenDoc {
             paras.swap(i, j);
         }
     }
-    // a DEP-3 header may use the From/Subject spelling
-    if d.name.contains("PatchHeader") && r.chance(1, 4) {
+    // a DEP-3 header may use the From/Subject spelling, for either field independently
+    if d.name.contains("PatchHeader") {
+        let (rf, rs) = (r.chance(1, 3), r.chance(1, 3));
         for p in paras.iter_mut() {
             for f in p.1.iter_mut() {
-                if f.0 == "Author" {
+                if rf && f.0 == "Author" {
                     f.0 = "From".to_string();
-                } else if f.0 == "Description" {
+                } else if rs && f.0 == "Description" {
                     f.0 = "Subject".to_string();
                 }
             }
